@@ -463,6 +463,10 @@ func checkC12(c *Ctx, r *Report) {
 		}
 		r.add("C12.g", "slash-collapse", en+":"+name, en+": registered paths are normalised the same way in every engine", []string{gp.Tpl.File}, []string{gp.site(fn.Pos())}, viol)
 	}
+
+	if tierThorough {
+		witnessSameRegistrations(c, r, "C12.b")
+	}
 }
 
 func tplOf(eng *TplEngine, name string) *Tpl {
